@@ -87,11 +87,15 @@ def build_file(lang, tag, places, r, style, run_at_end=False):
         # the statements live in a method of a class (all methods coroutines for async-method)
         lines = [f"class Service_{tag}:", f"    {'async ' if style == 'async-method' else ''}def handle(self, order, customer, region, state):"]
         ind = "        "
+    top = style == "exported-declarations" and not py
+    if top:
+        # a module of top-level statements whose declarations are exported: ordinary code, not imports
+        lines, ind = [f"const state_{tag} = setup(\"{tag}\");"], ""
     occ = []
     uid = 0
     for k, off in enumerate(places):
         for _ in range(off):
-            lines.append(f"{ind}{tag}_step_{uid} = {tag}_stage_{uid}(state, {uid + 11}){end}")
+            lines.append(f"{ind}{'export const ' if top else ''}{tag}_step_{uid} = {tag}_stage_{uid}(state, {uid + 11}){end}")
             uid += 1
         first = len(lines) + 1
         extra = ind if (style in ("indented", "callback") and k == 0) else ""
@@ -117,6 +121,8 @@ def build_file(lang, tag, places, r, style, run_at_end=False):
                 s = s.replace(" = ", "  =  ").replace(", ", ",   ")
             if style == "trailing-comment" and i == 0:
                 s = s + ("  # note " if py else "  // note ") + tag
+            if top and " = " in s:
+                s = "export const " + s
             lines.append(f"{ind}{extra}{s}")
         last = len(lines)
         if extra and not py:
@@ -124,7 +130,9 @@ def build_file(lang, tag, places, r, style, run_at_end=False):
         occ.append((first, last))
         if run_at_end and py and k == len(places) - 1:
             return lines, occ          # the planted run is the very end of the file
-        lines.append(f"{ind}{tag}_mark_{k} = {tag}_finish_{k}(state, {k + 31}){end}")
+        lines.append(f"{ind}{'export const ' if top else ''}{tag}_mark_{k} = {tag}_finish_{k}(state, {k + 31}){end}")
+    if top:
+        return lines, occ
     lines.append(f"{ind}return state" + end)
     if not py:
         lines.append("}")
@@ -146,7 +154,9 @@ def make_h(tier):
         r = ctx.pick("run_length", (1, 2, 3, 4, 6) if quick else (1, 2, 3, 4, 5, 6, 7))
         layout = ctx.pick("layout", ("A+B", "A+A", "A+B+C", "A+A+B", "A-only-once") if quick else
                           ("A+B", "A+A", "A+B+C", "A+A+B", "A-only-once", "A+A+A", "A+B+B+C"))
-        style = ctx.pick("style", ("plain", "indented", "callback", "method", "async-method", "commented", "block-commented", "commented-late", "spaced", "trailing-comment"))
+        style = ctx.pick("style", ("plain", "indented", "callback", "method", "async-method", "commented", "block-commented", "commented-late", "spaced", "trailing-comment", "exported-declarations"))
+        if style == "exported-declarations" and lang == "python":
+            ctx.assume(False)
         off = ctx.pick("offset", (0, 1, 3))
         at_end = ctx.flag("run_at_end_of_last_file") if lang == "python" else False
         minocc = ctx.int("min_occurrences", 1)
@@ -163,7 +173,7 @@ def make_h(tier):
             texts = {}
             for i, (t, cnt) in enumerate(sorted(files.items())):
                 places = [off + i] + [2] * (cnt - 1)
-                L, occ = build_file(lang, t.lower(), places, r, style if i == 0 else "plain",
+                L, occ = build_file(lang, t.lower(), places, r, style if (i == 0 or style == "exported-declarations") else "plain",
                                     run_at_end=at_end and i == len(files) - 1)
                 p = d / f"mod_{t.lower()}{ext}"
                 if naming != "distinct-names-one-directory":
